@@ -236,6 +236,7 @@ func c01Exec(ctx *core.Ctx, c c01Case) {
 			s.TLSConfig = wire.ServerTLS()
 		}
 	})
+	serverKnobs(rig, key)
 	probed := false
 	probeN, probeErr := 0, error(nil)
 	nData := 0
